@@ -10,7 +10,7 @@
 (* C10) is stated independently, through the orbit under the minor and     *)
 (* major symmetries.                                                       *)
 (***************************************************************************)
-EXTENDS Integers, Sequences, FiniteSets
+EXTENDS Integers, Sequences, FiniteSets, TLC
 
 I3 == 1..3
 V6 == 1..6
@@ -40,6 +40,8 @@ Orbit(t) == LET a == t[1] b == t[2] c == t[3] d == t[4] IN
     <<c,d,a,b>>, <<d,c,a,b>>, <<c,d,b,a>>, <<d,c,b,a>> }
 
 Class(k) == {t \in Tuples : Canon4(t) = k}
+\* materialised table (TLCEval forces TLC's lazy function values): use ClassOf[k] in hot loops
+ClassOf == TLCEval([k \in Keys |-> TLCEval(Class(k))])
 Mult(k)  == Cardinality(Class(k))
 
 \* the code's bit-shift formula: 1 << (I#J) << (i.i#i.j) << (j.i#j.j)
